@@ -873,11 +873,21 @@ pub fn edit(p: &mut Prng, base: &Pkg, kind: &str) -> Option<(Pkg, String, String
             Some((pkg, tag(base, a, x), format!("{} by its bare name in module {a}", x.tok())))
         }
         "drop-import" => {
-            let cands: Vec<(usize, usize)> = (0..n).flat_map(|m| (0..base.mods[m].imports.len()).map(move |i| (m, i))).collect();
-            if cands.is_empty() {
+            let all: Vec<(usize, usize)> = (0..n).flat_map(|m| (0..base.mods[m].imports.len()).map(move |i| (m, i))).collect();
+            if all.is_empty() {
                 return None;
             }
-            let (m, i) = *p.pick(&cands);
+            // preferably an import something relies on: a used item spelled by its bare name, or a module some spelling starts with
+            let relied: Vec<(usize, usize)> = all
+                .iter()
+                .filter(|(m, i)| match base.mods[*m].imports[*i].last() {
+                    Some(Id::Mod(k)) => base.mods[*m].spell.values().any(|sp| sp.first() == Some(&Id::Mod(*k))),
+                    Some(x) => used.contains(&(*m, *x)) && !base.mods[*m].spell.contains_key(x),
+                    None => false,
+                })
+                .cloned()
+                .collect();
+            let (m, i) = if !relied.is_empty() && p.chance(4, 5) { *p.pick(&relied) } else { *p.pick(&all) };
             let path = pkg.mods[m].imports.remove(i);
             let x = *path.last().unwrap();
             let t = if home.contains_key(&x) { tag(base, m, x) } else { "module".to_string() };
